@@ -108,15 +108,15 @@ func c12Ops(cfg c12Cfg) []c12Op {
 	r := rand.New(rand.NewSource(cfg.Seed))
 	// seed2 is created (and updated) by the application before the first successful Init:
 	// Init must keep the acknowledged value and only add the missing seeds
-	ops := []c12Op{{Kind: "init-bad", Bad: true}, {Kind: "create", ID: "seed2", U: "own2", K: "b"}, {Kind: "update", ID: "seed2", U: "own2b", K: "ba"}, {Kind: "init"}, {Kind: "create", ID: "x1", U: "first", K: "ab"}, {Kind: "update", ID: "x1", U: "second", K: "b"},
+	ops := []c12Op{{Kind: "init-bad", Bad: true, U: "nan"}, {Kind: "init-bad", Bad: true, U: []string{"emptyid", "dup", "wrongtype"}[int(cfg.Seed%3+3)%3]}, {Kind: "create", ID: "seed2", U: "own2", K: "b"}, {Kind: "update", ID: "seed2", U: "own2b", K: "ba"}, {Kind: "init"}, {Kind: "create", ID: "x1", U: "first", K: "ab"}, {Kind: "update", ID: "x1", U: "second", K: "b"},
 		{Kind: "create", ID: "x3", U: "nan1", K: "a", Bad: true}, {Kind: "update", ID: "x1", U: "nan2", K: "a", Bad: true},
 		{Kind: "update", ID: "seed1", U: "s1b", K: "z"}, {Kind: "delete", ID: "x1"}, {Kind: "create", ID: "x2", U: "third", K: ""}}
 	switch cfg.Prologue {
 	case "all-precreated":
-		ops = []c12Op{{Kind: "create", ID: "seed1", U: "own1", K: "c"}, {Kind: "create", ID: "seed2", U: "own2", K: "b"}, {Kind: "create", ID: "seed3", U: "own3", K: ""}, {Kind: "update", ID: "seed3", U: "own3b", K: "ab"},
+		ops = []c12Op{{Kind: "init-bad", Bad: true, U: "dup"}, {Kind: "create", ID: "seed1", U: "own1", K: "c"}, {Kind: "create", ID: "seed2", U: "own2", K: "b"}, {Kind: "create", ID: "seed3", U: "own3", K: ""}, {Kind: "update", ID: "seed3", U: "own3b", K: "ab"},
 			{Kind: "init"}, {Kind: "delete", ID: "seed1"}, {Kind: "init"}, {Kind: "create", ID: "x1", U: "first", K: "ab"}, {Kind: "flush"}, {Kind: "delete", ID: "seed3"}, {Kind: "init"}}
 	case "empty-first-init":
-		ops = []c12Op{{Kind: "init-empty"}, {Kind: "create", ID: "x1", U: "first", K: "ab"}, {Kind: "init"}, {Kind: "create", ID: "seed1", U: "own1", K: "c"}, {Kind: "init"}, {Kind: "update", ID: "x1", U: "second", K: "b"}}
+		ops = []c12Op{{Kind: "init-bad", Bad: true, U: "emptyid"}, {Kind: "init-bad", Bad: true, U: "wrongtype"}, {Kind: "init-empty"}, {Kind: "create", ID: "x1", U: "first", K: "ab"}, {Kind: "init"}, {Kind: "create", ID: "seed1", U: "own1", K: "c"}, {Kind: "init"}, {Kind: "update", ID: "x1", U: "second", K: "b"}}
 	}
 	for i := 0; i < cfg.Steps; i++ {
 		id := c12IDs[r.Intn(len(c12IDs))]
@@ -188,11 +188,13 @@ func c12Open(dir string, cfg c12Cfg) (*c12Store, error) {
 }
 
 func (s *c12Store) init(typed bool) (created int, err error) {
-	return s.initSeeds(typed, false)
+	return s.initSeeds(typed, "")
 }
 
-// initSeeds runs Init; with bad=true the second seed cannot be encoded.
-func (s *c12Store) initSeeds(typed, bad bool) (created int, err error) {
+// initSeeds runs Init; bad says what is wrong with the seed set: "nan" (the second seed
+// cannot be encoded), "emptyid" / "dup" / "wrongtype" (the second seed has an empty id,
+// the id of the first one, a value of another type; the callback itself returns nil).
+func (s *c12Store) initSeeds(typed bool, bad string) (created int, err error) {
 	cb := func(id string, before, after interface{}) {
 		if before == nil {
 			created++
@@ -206,8 +208,17 @@ func (s *c12Store) initSeeds(typed, bad bool) (created int, err error) {
 		}
 		sort.Strings(ids)
 		for i, id := range ids {
-			if bad && i == 1 {
-				add(id, mkUnencodable(typed, c12Seeds[id][0], c12Seeds[id][1]))
+			if bad != "" && i == 1 {
+				switch bad {
+				case "nan":
+					add(id, mkUnencodable(typed, c12Seeds[id][0], c12Seeds[id][1]))
+				case "emptyid":
+					add("", mkValue2(typed, c12Seeds[id][0], c12Seeds[id][1], ""))
+				case "dup":
+					add(ids[0], mkValue2(typed, c12Seeds[id][0], c12Seeds[id][1], ""))
+				case "wrongtype":
+					add(id, mkValue2(!typed, c12Seeds[id][0], c12Seeds[id][1], ""))
+				}
 				continue
 			}
 			add(id, mkValue2(typed, c12Seeds[id][0], c12Seeds[id][1], ""))
@@ -223,7 +234,7 @@ func (s *c12Store) apply(op c12Op, typed bool) error {
 		_, err := s.init(typed)
 		return err
 	case "init-bad":
-		_, err := s.initSeeds(typed, true)
+		_, err := s.initSeeds(typed, op.U)
 		return err
 	case "init-empty":
 		return s.st.Init(func(add func(id string, v interface{})) error { return nil })
